@@ -107,6 +107,28 @@ def table(ctx):
     ctx.exhaustive = True
 
 
+def rates_outside_the_unit_interval(ctx):
+    """Rates below zero and not-a-number (a mis-scaled or missing configuration value): no draw falls within them, so nothing that is
+    not forced is kept - the same policy as for every other rate, no special case."""
+    for rate in (-0.25, -1, -1e-9, float('nan')):
+        for forcing in ('none', 'op'):
+            for ignore in (False, True):
+                for draw in (0.0, 0.1, 0.9):
+                    faults = {('main', 1): 'force'} if forcing == 'op' else {}
+                    row = {'rate': repr(rate), 'forcing': forcing, 'ignore_forcing': ignore, 'draw': draw}
+                    res = fr.execute(table_prog('return'), faults, rate=rate, ignore_forced=ignore, skipped=False, scripted_draws=[draw], with_twin=False)
+                    try:
+                        ctx.case(row)
+                        got = observe(res)
+                        exp = 'save' if (forcing == 'op' and not ignore) else 'abort'
+                        ctx.count('decisions_compared')
+                        ctx.count('decisions_with_a_rate_outside_the_unit_interval')
+                        if got != exp:
+                            ctx.violation('decision %r differs from the policy (%r) for a rate no draw can fall within' % (got, exp), {'odd_rate_row': row, 'draws': res.draws})
+                    finally:
+                        fr.close(res)
+
+
 def content_prog(variant, i):
     p = table_prog('return')
     p = dict(p, uid=921000 + variant)
@@ -312,6 +334,37 @@ def s3_calculator(ctx):
                 ctx.violation('S3 sampled save wrote %d objects' % len(fake.log), {'ratio': ratio})
             if len(seen) != 1 or seen[0][0] != 'Cat' or not isinstance(seen[0][1], int) or seen[0][1] <= 0 or seen[0][2] is not rec:
                 ctx.violation('S3 sampling calculator was not called once with (category, size, recording)', {'seen': repr(seen)[:200]})
+    # one long-lived cassette, a calculator that decides by what the recording SAYS (a flag in its metadata) and by its exact size:
+    # recordings of one category and of (nearly) the same size get the ratio the calculator gives for THEM
+    for rule in ('by_flag', 'by_exact_size'):
+        fake = FakeS3()
+        with fake.installed():
+            calls = []
+
+            def calc2(category, size, recording):
+                calls.append(size)
+                if rule == 'by_flag':
+                    return 1.0 if recording.get_metadata().get('vip') else 0.0
+                return 1.0 if size % 2 == 0 else 0.0
+            c = fake.cassette('w', key_prefix='s', read_only=False, sampling_calculator=calc2)
+            for i in range(8):
+                rec = c.create_new_recording('Cat')
+                rec.set_data('k', 'v' * 40 + 'x' * (i % 3))
+                rec.add_metadata({'vip': i % 2 == 0, 'i': i})
+                n0, c0 = len(fake.log), len(calls)
+                c.save_recording(rec)
+                stored = len(fake.log) > n0
+                ctx.case(('s3calc_long_lived', rule, i))
+                ctx.count('s3_calculator_decisions')
+                ctx.count('s3_calculator_decisions_on_a_long_lived_cassette')
+                if len(calls) == c0 and rule == 'by_exact_size':
+                    ctx.count('s3_decisions_without_asking_the_calculator')     # (how often it is asked is not the property; the size is not known then)
+                    continue
+                exp = (i % 2 == 0) if rule == 'by_flag' else (calls[-1] % 2 == 0)
+                if stored != exp:
+                    ctx.violation('S3 sampling %s a recording for which the calculator answered %s (long-lived cassette, recording number %d of its category)' % (
+                        'stored' if stored else 'dropped', '1.0' if exp else '0.0', i + 1), {'s3_rule': rule, 'i': i})
+                    break
     # the calculator may be any callable - also an object that happens to be falsy (an empty rule book derived from dict)
     class RuleBook(dict):
         def __call__(self, category, size, recording):
@@ -847,6 +900,7 @@ def run(ctx):
         same_class_histories(ctx)
         inherited_operation(ctx)
         s3_calculator(ctx)
+        rates_outside_the_unit_interval(ctx)
     ctx.sample({'row': {'skipped': False, 'rate': 0.3, 'forcing': 'body', 'ignore_forcing': True, 'discard': 'none', 'outcome': 'interrupt', 'draw': 0.3},
                 'expected': 'save (forcing ignored, draw 0.3 <= rate 0.3)'})
     if not ctx.counters.get('decisions_compared'):
@@ -854,6 +908,8 @@ def run(ctx):
 
 
 def replay(ctx, w):
+    if w.get('odd_rate_row'):
+        return rates_outside_the_unit_interval(ctx)
     if w.get('rate_retuned'):
         return rate_retuned_at_run_time(ctx)
     if isinstance(w.get('row'), dict) and w['row'].get('failing_abort'):
